@@ -6,4 +6,8 @@ cd /verif/engine || exit 2
 cp /repo/go.sum go.sum
 mkdir -p /verif/bin /verif/evidence /verif/replays
 go build -tags verif -o /verif/bin/zncheck ./cmd/zncheck || exit 2
+# warm the build cache for the -race variant used by C16's auxiliary pass (first build is slow)
+go build -race -tags verif -o /verif/bin/zncheck-race ./cmd/zncheck 2>/dev/null && rm -f /verif/bin/zncheck-race
+(cd /verif/tools/mapperm && go build -o /verif/bin/mapperm . ) || exit 2
+go build -tags verif -o /verif/bin/pmexec ./cmd/pmexec || exit 2
 echo "setup ok"
